@@ -255,6 +255,9 @@ def run_writers(case):
                 w = td.TabularDataWriter.from_suffix(path, list(df.columns), buffer_size=buf, buffer_type=btype,
                                                      column_types=_np_types(df))
 
+                reuse = []  # some callers collect every batch in one list object that they clear and refill
+                reuse_list = bool(rng.integers(0, 2))
+
                 def feed():
                     for p in pieces:
                         if btype == td.TableType.DataFrame:
@@ -263,6 +266,10 @@ def run_writers(case):
                             recs = p.to_dict(orient="records")
                             if len(recs) == 1 and rng.integers(0, 2):
                                 w.append_data(recs[0])
+                            elif recs and reuse_list:
+                                reuse.clear()
+                                reuse.extend(recs)
+                                w.append_data(reuse)
                             elif recs:
                                 w.append_data(recs)
                         else:
